@@ -83,6 +83,25 @@ class Baton:
         if self.abort:
             raise AbortRun()
 
+    def lock_yield(self):
+        """The running thread waits for a library lock held by a parked
+        thread: pass the baton on, round robin."""
+        if self.abort:
+            raise AbortRun()
+        tid = self.current
+        others = [t for t in range(self.n)
+                  if t != tid and not self.finished[t]]
+        if not others:
+            raise RuntimeError('library lock held by a finished thread')
+        self.lock_rr = getattr(self, 'lock_rr', 0) + 1
+        target = others[self.lock_rr % len(others)]
+        self.log('lock-wait', tid, target)
+        self.current = target
+        self.sems[target].release()
+        self.sems[tid].acquire()
+        if self.abort:
+            raise AbortRun()
+
     def _worker(self, tid, body):
         self.sems[tid].acquire()
         try:
